@@ -33,7 +33,7 @@ def gen_plan(base_seed, i, tier):
     if sim.get("faults"):
         sim["faults"]["zombie_q"] = 0.0
     plan = {"property": "C13", "kind": "sweep", "rows": rows, "config": cfg, "sim": sim,
-            "draws": [round(rng.random(), 4), round(rng.random(), 2)], "max_t": 10 if tier == "quick" else 16}
+            "draws": [round(rng.random(), 4), rng.choice([round(rng.random(), 2), 1, 1e-6, 0.123456789, 0.999999, 0.5])], "max_t": 10 if tier == "quick" else 16}
     if rng.random() < 0.2:
         # the scoring step itself fails at its k-th call: batches may be lost, but no returned row may escape the threshold
         plan["model_fault_calls"] = sorted({rng.randint(0, 3) for _ in range(2)})
